@@ -11,6 +11,7 @@
  *               path "*" = every path under the root
  *   SHIM_KEYS   32 hex digits returned by getrandom (hash keys)
  *   SHIM_CLOCK  seconds returned by clock_gettime (optional)
+ *   SHIM_CLOCK_TICK_NS  simulated time that passes with every read (optional)
  *
  * Permanent kinds : probe-enoent open-eacces open-emfile read-eio
  *                   create-eacces create-erofs create-enoent
@@ -48,6 +49,8 @@ static int nplan = 0;
 static unsigned char keys[16];
 static int have_keys = 0;
 static long long clock_sec = -1;
+static long long clock_nsec = 0;
+static long long clock_tick_ns = 0; /* simulated time passing with every read */
 static unsigned long seq = 0;
 
 /* per-fd state for files opened under the root */
@@ -81,6 +84,8 @@ static void init(void) {
     }
     const char *c = getenv("SHIM_CLOCK");
     if (c && *c) clock_sec = atoll(c);
+    const char *tk = getenv("SHIM_CLOCK_TICK_NS");
+    if (tk && *tk) clock_tick_ns = atoll(tk);
     const char *p = getenv("SHIM_PLAN");
     if (p) {
         while (*p && nplan < MAXPLAN) {
@@ -175,7 +180,15 @@ ssize_t getrandom(void *buf, size_t len, unsigned int flags) {
 int clock_gettime(clockid_t clk, struct timespec *ts) {
     init();
     if (clock_sec < 0) return (int)syscall(SYS_clock_gettime, clk, ts);
-    if (ts) { ts->tv_sec = (time_t)clock_sec; ts->tv_nsec = 0; }
+    if (ts) { ts->tv_sec = (time_t)clock_sec; ts->tv_nsec = (long)clock_nsec; }
+    if (clock_tick_ns != 0) {
+        long long total = clock_nsec + clock_tick_ns;
+        long long carry = total / 1000000000LL;
+        total %= 1000000000LL;
+        if (total < 0) { total += 1000000000LL; carry -= 1; }
+        clock_nsec = total;
+        if (clock_sec + carry >= 0) clock_sec += carry;
+    }
     return 0;
 }
 
